@@ -865,7 +865,7 @@ func (a *Analysis) RGlobal() []report.Obligation {
 	// (1) writers
 	for _, f := range a.P.Funcs {
 		fi := a.Info[f]
-		isInit := f.Name() == "init" && f.Synthetic != ""
+		isInit := load.IsInitFunc(f)
 		o := report.Obligation{Rule: "R-GLOBAL", Key: "R-GLOBAL/" + load.ShortName(f) + "/writes", Config: a.cfg(), Pos: a.fnPos(f), OK: true,
 			Detail: "writes no package-level state"}
 		if isInit {
